@@ -9,10 +9,14 @@ Native driver of the C07 (HAB container) model.  One request per line:
   cmd <hex>                    -> ok:<re-encoded hex>:<size>                 or none
   xmcd <file hex>              -> ok:<exported segment>                      or E:...
   nonce <n>                    -> ok:<nonce length>
+  dcmd <hex>                   -> ok:<fields>:<re-encoded hex>:<size>        or E:spsdk / E:other   (parse_command, all classes)
+  dcd <hex>                    -> ok:<param>:<fields|fields..>:<re-exported hex>:<header length>    or E:...  (SegDCD.parse)
+  bdt <hex>                    -> ok:<start>,<length>,<plugin>:<re-exported hex>                     or E:...  (SegBDT.parse)
 -/
 import Driver.Proto
 import SpsdkVerif.Model.Hab
 import SpsdkVerif.Model.HabWF
+import SpsdkVerif.Model.HabDcd
 import SpsdkVerif.Spec.HabRom
 import SpsdkVerif.Crypto.Exec
 open SpsdkVerif Driver
@@ -42,7 +46,38 @@ def refStr : Option (Nat × Nat) → String
   | some (a, b) => s!"{a}:{b}"
   | none => "N"
 
+def dcmdStr : HabDcd.DCmd → String
+  | .writeData w o data => s!"W,{w},{o}," ++ "+".intercalate (data.map (fun (a, v) => s!"{a}={v}"))
+  | .checkData w o a m count => s!"C,{w},{o},{a},{m}," ++ (match count with | some c => toString c | none => "N")
+  | .init e data => s!"I,{e}," ++ "+".intercalate (data.map toString)
+  | .other (.nop p) => s!"N,{p}"
+  | .other (.unlock e f uid) => s!"U,{e},{f},{uid}"
+  | .other (.set itm alg eng cfg) => s!"S,{itm},{alg},{eng},{cfg}"
+  | .other c => "X," ++ toHex c.encode
+
 def step : List String → String
+  | ["dcmd", h] =>
+    match parseHex h with
+    | some d =>
+      match HabDcd.DCmd.decodeR d with
+      | .error e => e.tag
+      | .ok c => s!"ok:{dcmdStr c}:{toHex c.encode}:{c.size}"
+    | _ => "bad-op"
+  | ["dcd", h] =>
+    match parseHex h with
+    | some d =>
+      match HabDcd.dcdParse d with
+      | .error e => e.tag
+      | .ok (p, cmds) =>
+        s!"ok:{p}:" ++ "|".intercalate (cmds.map dcmdStr) ++ s!":{toHex (HabDcd.dcdEncode p cmds)}:{HabDcd.dcdLen cmds}"
+    | _ => "bad-op"
+  | ["bdt", h] =>
+    match parseHex h with
+    | some d =>
+      match HabDcd.bdtParse d with
+      | .error e => e.tag
+      | .ok (s, l, p) => s!"ok:{s},{l},{p}:{toHex (HabDcd.bdtEncode s l p)}"
+    | _ => "bad-op"
   | "build" :: f :: st :: io :: ils :: en :: dcd :: xm :: app :: ver :: dek :: nonce :: ml :: sd :: sc :: cmds =>
     match parseNat f, parseNat st, parseNat io, parseNat ils, parseNat en, optHex dcd, optHex xm, parseHex app,
           parseNat ver, parseHex dek, parseHex nonce, parseNat ml, parseHex sd, parseHex sc, cmds.mapM parseCmdTok with
